@@ -225,7 +225,7 @@ def run(ctx):
             return out
         if not val:
             uses_mode = any(isinstance(x, ast.Name) and x.id == "mode" for x in ast.walk(v.fi.node))
-            res.add("Q-PRED", f, "mode not in {'keep','remove'}", "mode-validated", "violation" if uses_mode and not any(ctx.callees(v.fi, c) for c in walk_no_nested(v.fi.node) if isinstance(c, ast.Call) and any(isinstance(a_, ast.Name) and a_.id == "mode" for a_ in c.args)) else "unknown", "other mode strings are not rejected (the predicate is only meaningful for keep / remove)", loc(v.fi, v.fi.node))
+            res.add("Q-PRED", f, "mode not in {'keep','remove'}", "mode-validated", "violation" if uses_mode and not any(not (isinstance(c.func, ast.Name) and c.func.id in ("str", "repr", "print", "format", "isinstance", "len")) for c in walk_no_nested(v.fi.node) if isinstance(c, ast.Call) and any(isinstance(a_, ast.Name) and a_.id == "mode" for a_ in list(c.args) + [k.value for k in c.keywords])) else "unknown", "other mode strings are not rejected (the predicate is only meaningful for keep / remove)", loc(v.fi, v.fi.node))
         for x in val:
             ms = mode_set(v.inline(x.test))
             st_ = "ok" if ms == {"keep", "remove"} else ("violation" if ms and ms != {"keep", "remove"} else "unknown")
